@@ -40,6 +40,7 @@ from ._actions import (
     _ActionHelpClassPath,
     _ActionPrintConfig,
     _find_action,
+    _find_action_and_subcommand,
     _find_parent_action,
     _is_action_value_list,
     parent_parsers_context,
@@ -487,10 +488,12 @@ class ActionTypeHint(Action):
     @staticmethod
     def apply_appends(parser, cfg):
         for key in [k for k in cfg.keys() if k.endswith("+")]:
-            action = _find_action(parser, key[:-1])
+            action, subcommand = _find_action_and_subcommand(parser, key[:-1])
             if ActionTypeHint.supports_append(action):
+                # the previous value of a subcommand's key lives in the subcommand's namespace
+                prev_cfg = cfg.get(subcommand) if subcommand else cfg
                 with parser_context(load_value_mode=parser.parser_mode):
-                    val = action._check_type_(cfg[key], append=True, cfg=cfg)
+                    val = action._check_type_(cfg[key], append=True, cfg=prev_cfg)
                 cfg[key[:-1]] = val
                 cfg.pop(key)
 
